@@ -47,7 +47,8 @@ where
     }
 
     let source = self.source.clone();
-    let subject = self.subject.clone();
+    // the hook is stored in the subject: it must not own a full clone of it
+    let subject = self.subject.emitter();
     let subscription = Arc::clone(&self.subscription);
 
     self.subject.set_on_subscribe(move |count| {
